@@ -7,6 +7,7 @@ package c20
 import (
 	"fmt"
 	"strings"
+	"time"
 
 	"github.com/onosproject/onos-config/verifharness/internal/fw"
 	"github.com/onosproject/onos-config/verifharness/internal/rng"
@@ -33,18 +34,39 @@ var Prop = &fw.Prop{
 	Shrink:      shrinkCase,
 }
 
-// shrinkCase proposes the script with one block removed: halves, quarters, …, single lines.  The
-// first line (init) always stays.
+// shrinkCase proposes the script with one block removed: halves, quarters, eighths, sixteenths, and
+// single lines once the script is short.  One run of a candidate costs ~0.3 s on the real stores, so
+// the whole process gets a budget: when it is used up the current (already smaller) case is kept.
+// The first line (init) always stays.
+var shrinkStart time.Time
+
+const shrinkBudget = 150 * time.Second
+
 func shrinkCase(c fw.Case) []fw.Case {
+	if shrinkStart.IsZero() {
+		shrinkStart = time.Now()
+	}
+	if time.Since(shrinkStart) > shrinkBudget {
+		return nil
+	}
 	var out []fw.Case
 	n := len(c.Script)
-	for size := n / 2; size >= 1; size /= 2 {
-		for from := 1; from+size <= n; from += size {
-			s := append(append([]string{}, c.Script[:from]...), c.Script[from+size:]...)
-			out = append(out, fw.Case{Script: s, Tags: c.Tags, Nontrivial: c.Nontrivial, Origin: c.Origin})
-		}
-		if len(out) > 400 {
+	drop := func(from, size int) {
+		s := append(append([]string{}, c.Script[:from]...), c.Script[from+size:]...)
+		out = append(out, fw.Case{Script: s, Tags: c.Tags, Nontrivial: c.Nontrivial, Origin: c.Origin})
+	}
+	for _, div := range []int{2, 4, 8, 16} {
+		size := n / div
+		if size < 2 {
 			break
+		}
+		for from := 1; from+size <= n; from += size {
+			drop(from, size)
+		}
+	}
+	if n <= 40 {
+		for from := n - 1; from >= 1; from-- {
+			drop(from, 1)
 		}
 	}
 	return out
